@@ -257,7 +257,12 @@ def assign_time_masks(pit, rng, style):
 
 def run_random(case, ctx, gen_opts=None):
     rng = random.Random(case['prog_seed'])
-    prog = pitgen.gen_valid_program(rng, family=case['family'], opts=gen_opts or {})
+    # (fixed layers, residual sums with a concat / fixed operand, depthwise after a concat are part
+    # of the grammar since the masker-sharing repair: PIT freezes what it cannot mask)
+    prog = pitgen.gen_valid_program(rng, family=case['family'], opts=gen_opts or {
+        'allow_fixed': True, 'p_fixed_stem': 0.15,
+        'hazards': ('add-of-cat', 'dw-after-cat', 'add-of-fixed', 'dw-after-fixed',
+                    'excluded-consumer')})
     try:
         model, pit, xs = pitlib.convert_pit(prog, case['seed'], fold_bn=case['fold'])
     except Exception as e:
